@@ -22,7 +22,7 @@ CHECKS["C16"] = dict(
          "distinct = distinct FNV hash of the full event trace",
     simtime_units="simulated clock ticks",
     probes=["equal_deadlines", "catch_up_ge_10", "callback_unplanned_other", "callback_planned_overdue", "replan_self",
-            "callback_destroyed_other", "replan_linked"],
+            "callback_destroyed_other", "replan_linked", "time_origin_not_positive"],
     assumptions=["time passed to exec() is non-decreasing and intervals are >= 1 (the property's precondition)",
                  "single caller thread (thread schedules are C20's subject)",
                  "the reference scheduler in harness/C16_timers.cpp is the specification of 'due', 'earliest first' and 're-arm'"],
@@ -62,11 +62,11 @@ _LINK_IGRIS = ["igris/protocols/gstuff.cpp", "igris/protocols/gstuff_v1/gstuff.c
 CHECKS["C04"] = dict(
     engine="E3-link",
     level="exploration",
-    mode="asan",
-    defs=["-DLINK_FAULTS=0", "-w"],
-    harness=["harness/C04_C05_link.cpp"],
-    igris=_LINK_IGRIS,
-    runs=dict(quick=60000, thorough=3000000),
+    parts=[
+        dict(name="link", mode="asan", defs=["-DLINK_FAULTS=0", "-w"], harness=["harness/C04_C05_link.cpp"], igris=_LINK_IGRIS, runs=dict(quick=60000, thorough=3000000)),
+        dict(name="threads", mode="thr", defs=["-w"], harness=[("harness/C04_thr_prog.cpp", ["+igris-san"]), "harness/C04_thr.cpp", "sim/thr/thrsim.cpp"],
+             igris=["igris/protocols/gstuff.cpp", "igris/protocols/gstuff_v1/gstuff.c"], libs=["-rdynamic"], runs=dict(quick=6000, thorough=300000)),
+    ],
     design_ref="DESIGN.md 4.3, 5 (C04)",
     technique="deterministic simulation of sender -> byte channel -> receiver in the fault-free configuration, reference encoder/decoder oracle, ASan on exact-size buffers",
     level_text="seeded exploration of traffic (1-5 back-to-back frames, marker-heavy payloads, CRC steered onto markers, iovec partitions) through the "
@@ -77,7 +77,7 @@ CHECKS["C04"] = dict(
          "and one encoder entry point, delivered byte by byte without faults. non-trivial = some payload byte or the CRC needed escaping; "
          "distinct = distinct hash of the (byte, receiver status) sequence",
     simtime_units="bytes delivered over the simulated link",
-    probes=["crc_is_marker", "all_bytes_escaped", "empty_payload", "empty_iovec_piece", "max_expansion"],
+    probes=["crc_is_marker", "all_bytes_escaped", "empty_payload", "empty_iovec_piece", "max_expansion", "payload_256_or_more", "exhaustive_block", "encoders_overlapped"],
     assumptions=["receive buffer of at least n+2 bytes (the property's 'large enough buffer')", "caller-supplied encoder output buffers are 2n+4 bytes"],
 )
 CHECKS["C05"] = dict(
